@@ -12,8 +12,8 @@
     links are reliable FIFO per transport (assumption on net/http + nhooyr websocket + TCP).
 
     Not modelled: heartbeat packets (PING/PONG of the socket; they travel like messages), the poll
-    time-out and the lost wake-up of [pollQueue] (property C19: here [get-or-park] is atomic and an
-    [add] always wakes a parked poller), payload bytes (the harness checks them), webtransport.
+    time-out of [pollQueue] (property C19; [get-or-park] is atomic here, an [add] always wakes a
+    parked poller, a stale wake-up parks again - the queue as repaired by commit 2f04e3e), payload bytes (the harness checks them), webtransport.
 
     [broke] is a ghost flag: it is raised exactly when a fault (cut / stall / upgrade timer) strikes
     inside the commit window, i.e. after the client has accepted the probe pong (it is committed to
@@ -209,7 +209,13 @@ Definition step (l : label) (st : state) : option state :=
       end
   | GetWake =>
       match s_get st with
-      | GWoken => Some (set_k_resp (RPkts (s_pq st)) (set_s_pq [] (set_s_get GIdle st)))
+      | GWoken =>
+          (* woken by [ready]: get(); a stale signal (the packets were already taken, e.g. by
+             QueuedPackets at the swap) makes the poller wait again instead of answering empty *)
+          Some (match s_pq st with
+                | [] => set_s_get GParked st
+                | l => set_k_resp (RPkts l) (set_s_pq [] (set_s_get GIdle st))
+                end)
       | _ => None
       end
   | RespDeliver =>
